@@ -265,6 +265,132 @@ theorem lookup_insertKv_other (kvs : List (String × Json)) (k k' : String) (v :
     have h1 : ¬ k = k' := fun e => hk e.symm
     simp [h1]
 
+/-! ### loaders -/
+
+theorem parseRows_ok_iff (rows : List GeomRow) (ls : List Line) :
+    parseRows rows = .ok ls ↔ rows = ls.map some := by
+  induction rows generalizing ls with
+  | nil =>
+    cases ls with
+    | nil => simp [parseRows]
+    | cons a r => simp [parseRows]
+  | cons row r ih =>
+    cases row with
+    | none =>
+      simp only [parseRows]
+      constructor
+      · intro h; cases h
+      · intro h
+        cases ls with
+        | nil => simp at h
+        | cons a t => simp at h
+    | some l =>
+      simp only [parseRows]
+      cases hr : parseRows r with
+      | error x =>
+        simp only
+        constructor
+        · intro h; cases h
+        · intro h
+          cases ls with
+          | nil => simp at h
+          | cons a t =>
+            simp only [List.map_cons, List.cons.injEq] at h
+            have := (ih t).2 h.2
+            rw [hr] at this
+            cases this
+      | ok ls' =>
+        simp only
+        have h1 := (ih ls').1 hr
+        constructor
+        · intro h
+          injection h with h
+          subst h
+          simp [h1]
+        · intro h
+          cases ls with
+          | nil => simp at h
+          | cons a t =>
+            simp only [List.map_cons, List.cons.injEq, Option.some.injEq] at h
+            obtain ⟨ha, ht⟩ := h
+            subst ha
+            have h2 := (ih t).2 ht
+            rw [hr] at h2
+            injection h2 with h2
+            rw [h2]
+
+theorem parseRows_error_of_mem (rows : List GeomRow) (h : none ∈ rows) : parseRows rows = .error .io := by
+  induction rows with
+  | nil => simp at h
+  | cons row r ih =>
+    cases row with
+    | none => simp [parseRows]
+    | some l =>
+      have hr : none ∈ r := by simpa using h
+      simp [parseRows, ih hr]
+
+theorem parseRows_error_kind (rows : List GeomRow) (x : Err) (h : parseRows rows = .error x) : x = .io := by
+  induction rows with
+  | nil => simp [parseRows] at h
+  | cons row r ih =>
+    cases row with
+    | none => simp only [parseRows] at h; injection h with h; exact h.symm
+    | some l =>
+      simp only [parseRows] at h
+      cases hr : parseRows r with
+      | error y => simp only [hr] at h; injection h with h; subst h; exact ih hr
+      | ok ls => simp [hr] at h
+
+theorem some_map_inj (a b : List Line) (h : a.map some = b.map some) : a = b := by
+  induction a generalizing b with
+  | nil => cases b with
+    | nil => rfl
+    | cons x t => simp at h
+  | cons x t ih =>
+    cases b with
+    | nil => simp at h
+    | cons y u =>
+      simp only [List.map_cons, List.cons.injEq, Option.some.injEq] at h
+      rw [h.1, ih u h.2]
+
+/-! ### `replaceKv` -/
+
+theorem lookup_replaceKv_same (kvs : List (String × Json)) (k : String) (v v0 : Json)
+    (h : Json.lookup kvs k = some v0) : Json.lookup (replaceKv kvs k v) k = some v := by
+  induction kvs with
+  | nil => simp [Json.lookup] at h
+  | cons p r ih =>
+    obtain ⟨a, b⟩ := p
+    rw [lookup_cons] at h
+    by_cases ha : a = k
+    · simp [replaceKv, ha, lookup_cons]
+    · simp only [ha, if_false] at h
+      have : ((a, b).1 == k) = false := by simpa using ha
+      simp only [replaceKv, List.map_cons, this, Bool.false_eq_true, if_false]
+      rw [lookup_cons, if_neg ha]
+      exact ih h
+
+theorem lookup_replaceKv_other (kvs : List (String × Json)) (k k' : String) (v : Json) (hk : k' ≠ k) :
+    Json.lookup (replaceKv kvs k v) k' = Json.lookup kvs k' := by
+  induction kvs with
+  | nil => simp [replaceKv]
+  | cons p r ih =>
+    obtain ⟨a, b⟩ := p
+    by_cases ha : a = k
+    · have : ((a, b).1 == k) = true := by simpa using ha
+      simp only [replaceKv, List.map_cons, this, if_true]
+      rw [lookup_cons, lookup_cons]
+      have h1 : ¬ k = k' := fun e => hk e.symm
+      have h2 : ¬ a = k' := fun e => hk (e.symm.trans ha)
+      simp only [h1, h2, if_false]
+      exact ih
+    · have : ((a, b).1 == k) = false := by simpa using ha
+      simp only [replaceKv, List.map_cons, this, Bool.false_eq_true, if_false]
+      rw [lookup_cons, lookup_cons]
+      have := ih
+      simp only [replaceKv] at this
+      rw [this]
+
 /-! ### the plugin pipeline -/
 
 theorem traversalProcess_error_indep (cfg : TraversalCfg) (res : SearchResult) (r r' : Resp) (x : Err)
@@ -282,7 +408,7 @@ theorem traversalProcess_error_indep (cfg : TraversalCfg) (res : SearchResult) (
       | ok outs => simp [hm] at h
   | some fr =>
     simp only [hr] at h ⊢
-    cases hm : mapExcept (constructRouteOutput cfg.geoms fr) res.routes with
+    cases hm : mapExcept (constructRouteOutput res.costSlots cfg.geoms fr) res.routes with
     | error y => simpa [hm] using h
     | ok outs =>
       simp only [hm] at h ⊢
@@ -326,7 +452,7 @@ theorem runPlugins_error_of_mem (req : Json) (res : SearchResult) (p : Plugin) (
 
 theorem traversalProcess_route (cfg : TraversalCfg) (res : SearchResult) (r r' : Resp)
     (h : traversalProcess cfg res r = .ok r') :
-    (∀ f, cfg.route = some f → ∃ outs, mapExcept (constructRouteOutput cfg.geoms f) res.routes = .ok outs ∧
+    (∀ f, cfg.route = some f → ∃ outs, mapExcept (constructRouteOutput res.costSlots cfg.geoms f) res.routes = .ok outs ∧
         r'.route = some (shape outs)) ∧
     (cfg.route = none → r'.route = r.route) ∧
     (∀ f, cfg.tree = some f → ∃ outs, mapExcept (generateTreeOutput cfg.geoms f) res.trees = .ok outs ∧
@@ -354,7 +480,7 @@ theorem traversalProcess_route (cfg : TraversalCfg) (res : SearchResult) (r r' :
         exact ⟨outs, hm, rfl⟩
   | some fr =>
     simp only [hr] at h
-    cases hm : mapExcept (constructRouteOutput cfg.geoms fr) res.routes with
+    cases hm : mapExcept (constructRouteOutput res.costSlots cfg.geoms fr) res.routes with
     | error y => simp [hm] at h
     | ok outs =>
       simp only [hm] at h
